@@ -194,6 +194,27 @@ def purge_loop_check(F, fn, glob_target, elem_ty_pred, source_pred):
                     idiom_blocks.append(b)
     if not candidates and not idiom_blocks:
         return False, "the Scope::Global arm contains no loop over the group stack: a global assignment does not purge every open group", fn.loc(fn.blocks[glob_target]["t"])
+    # the loop may only end when the iterator is exhausted: any other exit edge is a data-dependent early stop
+    for hdr, body, tainted, elem_defs in candidates:
+        next_dests = set()
+        for b in body:
+            tb = fn.blocks[b]["t"]
+            if tb["k"] == "call" and strip_generics(callee_name(tb) or "").endswith("::next"):
+                next_dests.add(tb["dest"]["l"])
+        for b in sorted(body):
+            for s in fn.succ()[b]:
+                if s in body:
+                    continue
+                blk = fn.blocks[b]
+                okk = False
+                if blk["t"]["k"] == "switch":
+                    p = op_place(blk["t"]["op"])
+                    for st in blk["s"]:
+                        if p is not None and st["k"] == "=" and st["lhs"]["l"] == p["l"] and st["rv"]["k"] == "discr" and st["rv"]["pl"]["l"] in next_dests and not st["rv"]["pl"]["p"]:
+                            okk = True
+                if not okk:
+                    return False, ("the purge loop on the Scope::Global arm can stop early at %s (an exit other than iterator exhaustion): groups further "
+                                   "out keep their pending restore for the key, which undoes the global assignment when they close" % fn.loc(blk["t"])), fn.loc(blk["t"])
     for hdr, body, tainted, elem_defs in candidates:
         if not elem_defs:
             return False, "loop at bb%d on the Scope::Global arm never takes a reference to a stack element" % hdr, fn.loc(fn.blocks[hdr]["t"])
